@@ -88,51 +88,11 @@ func vfC02Gen(rt *rapid.T) vfC02Case {
 	return c
 }
 
-type vfC02ModelPub struct {
-	Off  uint64
-	Tags map[string]string
-	Data string
-}
-
-type vfC02Model struct {
-	exists   bool
-	epochGen int
-	top      uint64
-	retained []vfC02ModelPub
-	expireAt int64 // unix seconds, 0 = none
-	removeAt int64
-}
-
-func (m *vfC02Model) sweep(now int64) {
-	if m.expireAt != 0 && now >= m.expireAt {
-		m.retained = nil
-		m.expireAt = 0
-	}
-	if m.exists && m.removeAt != 0 && now >= m.removeAt {
-		m.exists = false
-		m.retained = nil
-		m.top = 0
-		m.expireAt = 0
-		m.removeAt = 0
-	}
-}
-
-func (m *vfC02Model) touch(now int64, metaTTL int64) {
-	if !m.exists {
-		m.exists = true
-		m.epochGen++
-		m.top = 0
-		m.retained = nil
-	}
-	m.removeAt = now + metaTTL
-}
-
 type vfC02Out struct {
 	labels     []string
 	nontrivial bool
 }
 
-const vfC02DefaultMeta = int64(30 * 24 * 3600)
 
 func vfC02Run(t *testing.T, cs vfC02Case, out *vfC02Out) string {
 	return vfBubble(t, func() string {
@@ -154,89 +114,11 @@ func vfC02Run(t *testing.T, cs vfC02Case, out *vfC02Out) string {
 			}
 			return r, nil
 		}
-		time.Sleep(500 * time.Millisecond) // all operations happen at x.5 s; sweeps run at whole seconds
-		now := func() int64 { return time.Now().Unix() }
-		m := &vfC02Model{}
-		var epochs []string // distinct epochs observed, in order
-		noteEpoch := func(e string) {
-			if e == "" {
-				return
-			}
-			if len(epochs) == 0 || epochs[len(epochs)-1] != e {
-				epochs = append(epochs, e)
-			}
+		h := vfHistBuild(w, ch, cs.Ops, int64(cs.SubMetaTTL))
+		if h.Err != "" {
+			return h.Err
 		}
-		trimmedOrExpired := false
-		for i, op := range cs.Ops {
-			switch op.Kind {
-			case 0:
-				data := fmt.Sprintf(`{"i":%d}`, i)
-				meta := time.Duration(op.MetaTTL) * time.Second
-				res, err := w.node.Publish(ch, []byte(data), WithHistory(op.Size, time.Duration(op.TTL)*time.Second, meta), WithTags(op.Tags))
-				if err != nil {
-					return fmt.Sprintf("step %d: publish error %v", i, err)
-				}
-				mt := int64(op.MetaTTL)
-				if mt == 0 {
-					mt = vfC02DefaultMeta
-				}
-				m.touch(now(), mt)
-				m.top++
-				m.retained = append(m.retained, vfC02ModelPub{Off: m.top, Tags: op.Tags, Data: data})
-				for len(m.retained) > op.Size {
-					m.retained = m.retained[1:]
-					trimmedOrExpired = true
-				}
-				m.expireAt = now() + int64(op.TTL)
-				if res.Offset != m.top {
-					return fmt.Sprintf("step %d: publish returned offset %d, stream model expects %d (history model mismatch)", i, res.Offset, m.top)
-				}
-				noteEpoch(res.Epoch)
-			case 1:
-				for s := 0; s < op.Adv; s++ {
-					time.Sleep(time.Second)
-					before := len(m.retained)
-					m.sweep(now())
-					if len(m.retained) < before {
-						trimmedOrExpired = true
-					}
-				}
-			case 2:
-				if err := w.node.RemoveHistory(ch); err != nil {
-					return fmt.Sprintf("step %d: remove history error %v", i, err)
-				}
-				if len(m.retained) > 0 {
-					trimmedOrExpired = true
-				}
-				m.retained = nil
-			}
-		}
-		vfSettle()
-		// Probe the current position (same side effects as the history read the subscribe performs itself).
-		probeMeta := int64(cs.SubMetaTTL)
-		if probeMeta == 0 {
-			probeMeta = vfC02DefaultMeta
-		}
-		cur, err := w.node.History(ch, WithHistoryFilter(HistoryFilter{Limit: 0}), WithHistoryMetaTTL(time.Duration(cs.SubMetaTTL)*time.Second))
-		if err != nil {
-			return "probe history error: " + err.Error()
-		}
-		wasNew := !m.exists
-		m.touch(now(), probeMeta)
-		if cur.Offset != m.top {
-			return fmt.Sprintf("probe: stream top %d, model expects %d (history model mismatch)", cur.Offset, m.top)
-		}
-		if wasNew {
-			for _, e := range epochs {
-				if e == cur.Epoch {
-					return fmt.Sprintf("probe: epoch %q reused after the stream's metadata was discarded", e)
-				}
-			}
-		} else if len(epochs) > 0 && epochs[len(epochs)-1] != cur.Epoch {
-			return fmt.Sprintf("probe: epoch changed from %q to %q although metadata was not discarded", epochs[len(epochs)-1], cur.Epoch)
-		}
-		noteEpoch(cur.Epoch)
-		curEpoch := cur.Epoch
+		m, epochs, curEpoch, trimmedOrExpired := h.M, h.Epochs, h.CurEpoch, h.TrimmedOrExpired
 
 		reqOffset := uint64(cs.OffPick) % (m.top + 4)
 		reqEpoch := ""
